@@ -142,5 +142,10 @@ func init() {
 		m.sch.bound = m.ConcInt(args[0])
 		return nil
 	}
+	// vfRaceDetect switches happens-before race detection on for the rest of the path.
+	harnessAPI["vfRaceDetect"] = func(m *Machine, args []Value) Value {
+		m.sch.race.on = true
+		return nil
+	}
 	harnessAPI["vfSymbolic"] = func(m *Machine, args []Value) Value { return m.C.True }
 }
